@@ -134,10 +134,11 @@ theorem bigVal_addCols (p : Par) (hN : 0 < p.N) (hsk : p.rank ≤ p.sk.length) (
 
 /-! ### one key bit: the value of `vmp_res` -/
 
-/-- side conditions of the block-binary loop (all decidable): same-radix accumulator covered by the gadget (`rs ≤ dnum ≤ S`), `dsize = 1`,
-head-room of the big accumulator for blocks of at most `L` key bits -/
+/-- side conditions of the block-binary loop (all decidable): accumulator and key in one radix, `rs ≤ S` accumulator limbs, `dnum ≤ S` key rows
+(when `rs > dnum` the tail limbs of the accumulator are not multiplied: they enter the error, `tailL`), `dsize = 1`, head-room of the big
+accumulator for blocks of at most `L` key bits -/
 def BrOk (p : Par) (L : Nat) : Prop :=
-  0 < p.N ∧ 1 ≤ p.b ∧ p.b ≤ 60 ∧ 1 ≤ p.rs ∧ p.rs ≤ p.dnum ∧ p.dnum ≤ p.S ∧ p.dsize = 1 ∧ p.rank ≤ p.sk.length ∧ 0 ≤ p.Dm ∧ 0 ≤ p.BE ∧
+  0 < p.N ∧ 1 ≤ p.b ∧ p.b ≤ 60 ∧ 1 ≤ p.rs ∧ p.rs ≤ p.S ∧ p.dnum ≤ p.S ∧ p.dsize = 1 ∧ p.rank ≤ p.sk.length ∧ 0 ≤ p.Dm ∧ 0 ≤ p.BE ∧
   (L : Int) * (2 * prodBound 1 (p.rank + 1) p.dnum p.N p.Hin p.Dm) + p.Hin + 8 ≤ 2 ^ (bitsOf p.big128 - 2)
 
 instance (p : Par) (L : Nat) : Decidable (BrOk p L) := by unfold BrOk; infer_instance
@@ -178,13 +179,78 @@ theorem outT_bound (p : Par) (hH : 0 ≤ p.Hin) (out : List Col) (h : WfC p out)
 theorem Hin_nonneg (p : Par) : 0 ≤ p.Hin := by
   unfold Par.Hin; have : (1 : Int) ≤ 2 ^ p.b := one_le_pow₀ (by norm_num); linarith
 
+/-- the limbs of the accumulator that `vmp_apply_dft_to_dft` does not read (limbs `≥ dnum` of every column; the zero list when `rs ≤ dnum`), as
+ONE coefficient list at the scale of the `rs` limbs: C03's `truncL` -/
+def tailL (p : Par) (out : List Col) : Poly :=
+  KsDec.truncL p.N p.b (min p.rs p.dnum) (min p.rs p.dnum) p.sk p.rank (Ks.mkCt p.b p.N out)
+
+theorem col_cut (N b S rs dnum : Nat) (c : Col) (hc : C02L.ColWF N rs c) (hrs : rs ≤ S) (hd : dnum ≤ S) :
+    ((2 : Ks.R N) ^ b) ^ (S - dnum) * Ks.ι N (C02L.valP b N (C02L.fit N dnum c))
+      = ((2 : Ks.R N) ^ b) ^ (S - rs) * (Ks.ι N (C02L.valP b N c) - Ks.ι N (C02L.valP b N (c.drop (min rs dnum)))) := by
+  have h1 := KsDec.col_used_value N b dnum (min rs dnum) c hc.2 (by rw [hc.1]; exact Nat.min_le_left _ _) (Nat.min_le_right _ _)
+  have h2 := KsDec.ι_valP_fit_gen N b dnum c hc.2
+  rw [hc.1] at h1 h2
+  rw [← h2, Ks.radix_eq] at h1
+  by_cases h : dnum ≤ rs
+  · have e1 : dnum - rs = 0 := by omega
+    rw [e1, pow_zero, one_mul] at h1
+    have e2 : ((2 : Ks.R N) ^ b) ^ (S - dnum) = ((2 : Ks.R N) ^ b) ^ (S - rs) * ((2 : Ks.R N) ^ b) ^ (rs - dnum) := by
+      rw [← pow_add]; congr 1; omega
+    rw [e2, mul_assoc, h1]
+  · have e1 : rs - dnum = 0 := by omega
+    rw [e1, pow_zero, one_mul] at h1
+    have e2 : ((2 : Ks.R N) ^ b) ^ (S - rs) = ((2 : Ks.R N) ^ b) ^ (S - dnum) * ((2 : Ks.R N) ^ b) ^ (dnum - rs) := by
+      rw [← pow_add]; congr 1; omega
+    rw [e2, mul_assoc, h1]
+
+/-- the phase of the accumulator as the product reads it, against the phase of the accumulator: `β^{S−dnum}·phase(acc|dnum) = β^{S−rs}·(phase(acc) − ι(tailL))` -/
+theorem outT_phase (p : Par) (hN : 0 < p.N) (hsk : p.rank ≤ p.sk.length) (hrs : p.rs ≤ p.S) (hd : p.dnum ≤ p.S) (out : List Col) (hout : WfC p out) :
+    ((2 : Ks.R p.N) ^ p.b) ^ (p.S - p.dnum) * Ks.ι p.N (C02L.valP p.b p.N (Core.Ops.phase p.sk (Ks.mkCt p.b p.N (outT p out))))
+      = ((2 : Ks.R p.N) ^ p.b) ^ (p.S - p.rs)
+          * (Ks.ι p.N (C02L.valP p.b p.N (Core.Ops.phase p.sk (Ks.mkCt p.b p.N out))) - Ks.ι p.N (tailL p out)) := by
+  have hol : out.length = p.rank + 1 := (wf_of_shapeOk p.N _ _ _ hout.1).1
+  have hne : out ≠ [] := by intro h; rw [h] at hol; simp at hol
+  have hwf := (wf_of_shapeOk p.N _ _ _ hout.1).2
+  have hsh := outT_shape p out hout
+  have hTl : (outT p out).length = p.rank + 1 := (wf_of_shapeOk p.N _ _ _ hsh).1
+  have hTne : outT p out ≠ [] := by intro h; rw [h] at hTl; simp at hTl
+  rw [Core.ι_valP_phase_cols p.N hN p.b p.dnum p.sk (outT p out) hTne (wf_of_shapeOk p.N _ _ _ hsh).2,
+    Core.ι_valP_phase_cols p.N hN p.b p.rs p.sk out hne hwf, hTl, hol, Nat.add_sub_cancel, Nat.min_eq_left hsk]
+  unfold tailL
+  rw [KsDec.ι_truncL _ _ _ _ _ _ _ hN]
+  have hcol : ∀ j, j < p.rank + 1 → (outT p out).getD j [] = C02L.fit p.N p.dnum (out.getD j []) := by
+    intro j hj; unfold outT accT; exact mapRange_getD _ _ _ _ hj
+  have hcw : ∀ j, j < p.rank + 1 → C02L.ColWF p.N p.rs (out.getD j []) := by
+    intro j hj
+    have hj' : j < out.length := by rw [hol]; exact hj
+    rw [List.getD_eq_getElem?_getD, List.getElem?_eq_getElem hj']; exact hwf _ (List.getElem_mem hj')
+  have h0 := col_cut p.N p.b p.S p.rs p.dnum (out.getD 0 []) (hcw 0 (by omega)) hrs hd
+  rw [hcol 0 (by omega), mul_add, h0, Finset.mul_sum]
+  have hsum : ∀ i ∈ range p.rank, ((2 : Ks.R p.N) ^ p.b) ^ (p.S - p.dnum)
+        * (Ks.ι p.N (p.sk.getD i []) * Ks.ι p.N (C02L.valP p.b p.N ((outT p out).getD (i + 1) [])))
+      = ((2 : Ks.R p.N) ^ p.b) ^ (p.S - p.rs) * (Ks.ι p.N (p.sk.getD i []) * Ks.ι p.N (C02L.valP p.b p.N (out.getD (i + 1) []))
+          - Ks.ι p.N (p.sk.getD i []) * Ks.ι p.N (C02L.valP p.b p.N ((out.getD (i + 1) []).drop (min p.rs p.dnum)))) := by
+    intro i hi
+    have hi' := Finset.mem_range.mp hi
+    have := col_cut p.N p.b p.S p.rs p.dnum (out.getD (i + 1) []) (hcw (i + 1) (by omega)) hrs hd
+    rw [hcol (i + 1) (by omega)]
+    linear_combination Ks.ι p.N (p.sk.getD i []) * this
+  rw [Finset.sum_congr rfl hsum, ← Finset.mul_sum, Finset.sum_sub_distrib]
+  show _ = ((2 : Ks.R p.N) ^ p.b) ^ (p.S - p.rs) * (_ - (∑ i ∈ range p.rank, Ks.ι p.N (p.sk.getD i [])
+      * Ks.ι p.N (C02L.valP p.b p.N (((Ks.mkCt p.b p.N out).cols.getD (i + 1) []).drop (min p.rs p.dnum)))
+    + Ks.ι p.N (C02L.valP p.b p.N (((Ks.mkCt p.b p.N out).cols.getD 0 []).drop (min p.rs p.dnum)))))
+  show _ = ((2 : Ks.R p.N) ^ p.b) ^ (p.S - p.rs) * (_ - (∑ i ∈ range p.rank, Ks.ι p.N (p.sk.getD i [])
+      * Ks.ι p.N (C02L.valP p.b p.N ((out.getD (i + 1) []).drop (min p.rs p.dnum)))
+    + Ks.ι p.N (C02L.valP p.b p.N ((out.getD 0 []).drop (min p.rs p.dnum)))))
+  ring
+
 /-- **value of `vmp_res` of one key bit**: `bit·β^{S−rs}·phase(acc) + ι(errL) − β^S·head` -/
 theorem bigVal_vmp (p : Par) (L : Nat) (hok : BrOk p L) (out : List Col) (hout : WfC p out) (x : GBit p.N) (hx : Good p x) :
     bigVal p (epInternal (outT p out) x.g (zeroCols p.N (p.rank + 1) p.S) (zeroCols p.N (p.rank + 1) p.S))
       = bitR x.bit * (((2 : Ks.R p.N) ^ p.b) ^ (p.S - p.rs)
-            * Ks.ι p.N (C02L.valP p.b p.N (Core.Ops.phase p.sk (Ks.mkCt p.b p.N out))))
+            * (Ks.ι p.N (C02L.valP p.b p.N (Core.Ops.phase p.sk (Ks.mkCt p.b p.N out))) - Ks.ι p.N (tailL p out)))
         + Ks.ι p.N (bitErrL p out x) - ((2 : Ks.R p.N) ^ p.b) ^ p.S * bitHead p out x := by
-  obtain ⟨hN, hb1, hb60, hrs1, hrsd, hdS, hd1, hsk, hDm, hBE, _⟩ := hok
+  obtain ⟨hN, hb1, hb60, hrs1, hrsS, hdS, hd1, hsk, hDm, hBE, _⟩ := hok
   obtain ⟨hgn, hgw, hgb, hgr, hgdn, hgds, hgS, hgd, hEL, hBEL, hM, hkey⟩ := hx
   have hsh := outT_shape p out hout
   have h0 := outT_len0 p out hout
@@ -202,23 +268,14 @@ theorem bigVal_vmp (p : Par) (L : Nat) (hok : BrOk p L) (out : List Col) (hout :
   have hcov := ep_covered_value p.N hN (outT p out) x.g p.sk p.σ p.dnum (by rw [hgr]; simp [outT, accT])
     (by rw [← hgr] at hsh; exact (wf_of_shapeOk p.N _ _ _ hsh).2) (by rw [hgds, hd1]) (by rw [hgS]; exact hdS)
     (by rw [hgdn, hgds, hd1]; omega) (by rw [hgr]; exact hsk) hσ0 hσ
-  have hol : out.length = p.rank + 1 := (wf_of_shapeOk p.N _ _ _ hout.1).1
-  have hfit := ι_valP_phase_fit p.N hN p.b p.rs p.dnum p.sk out
-    (by intro h; rw [h] at hol; simp at hol) (wf_of_shapeOk p.N _ _ _ hout.1).2 hrsd
-  have hacc : (List.range out.length).map (fun j => C02L.fit p.N p.dnum (out.getD j [])) = outT p out := by
-    unfold outT accT; rw [hol]
-  rw [hacc] at hfit
+  have hph := outT_phase p hN hsk hrsS hdS out hout
   have hlist := EpCoeff.epErr_list p.N p.sk (outT p out) x.g x.EL x.K hN hgn (by rw [hgn, hgr, h0]; exact hsh) hEL (by rw [hgds, hd1]; norm_num)
   unfold epValue at hval
   unfold epErr at hlist
   simp only [hgb, hgS, hgds, hgdn, hgn, hgr, h0] at hcov hlist hval
-  rw [hfit] at hcov
   unfold bigVal
-  rw [hval, hcov]
-  have hpw : ((2 : Ks.R p.N) ^ p.b) ^ (p.S - p.dnum) * ((2 : Ks.R p.N) ^ p.b) ^ (p.dnum - p.rs) = ((2 : Ks.R p.N) ^ p.b) ^ (p.S - p.rs) := by
-    rw [← pow_add]; congr 1; omega
+  rw [hval, hcov, hph]
   unfold bitErrL bitHead
-  rw [← hpw]
   linear_combination hlist
 
 /-! ### the block -/
@@ -272,10 +329,17 @@ theorem posMod_lt (x : Int) (m : Nat) (hm : 0 < m) : Lut.posMod x m < m := by
   have h2 := Int.emod_lt_of_pos (w64 (x + (m : Int))) (by exact_mod_cast hm : (0 : Int) < (m : Int))
   omega
 
-/-- the per-key-bit error bound `B` of the block-binary loop: units of `2^-(b·rs+b·S)` of the torus -/
+/-- the per-key-bit error bound `B` of the block-binary loop, units of `2^-(b·rs+b·S)` of the torus: the gadget error
+`2^(b·rs)·(rank+1)·dnum·N·(2^b−1)·BE` plus, when the accumulator has more limbs than the key has rows, the un-multiplied tail
+`2^(b·S)·(1+Σ‖s_i‖₁)·(2^b−1)·Σ_{k<rs−dnum} 2^(b·k)` (C03's `truncBound`; `0` when `rs ≤ dnum`) -/
 def brB (p : Par) : Int :=
   2 ^ (p.b * p.rs) * (((p.rank + 1 : Nat) : Int) * ((p.dnum : Int) *
     ((∑ di ∈ range p.dsize, (2 : Int) ^ (p.b * di)) * ((p.N : Int) * p.Hin) * p.BE)))
+  + 2 ^ (p.b * p.S) * KsDec.truncBound p.b (min p.rs p.dnum) (min p.rs p.dnum) p.sk p.rank p.rs p.Hin
+
+/-- the error of one key bit as a coefficient list: `2^(b·rs)·errL − bit·2^(b·S)·tailL` -/
+def bitErr (p : Par) (out : List Col) (x : GBit p.N) : Poly :=
+  Hal.polyAdd (Hal.polyScale (2 ^ (p.b * p.rs)) (bitErrL p out x)) (Hal.polyScale (-(if x.bit then 2 ^ (p.b * p.S) else 0)) (tailL p out))
 
 /-- the per-block normalisation error `U` -/
 def brU (p : Par) : Int := (1 + C02L.snorm (min p.rank p.sk.length) p.sk) * C02.normTol (p.b * p.rs) (p.b * p.S)
@@ -287,15 +351,42 @@ theorem list_sum_lin {α : Type} (l : List α) (c m e h : α → R) (A T : R) :
   | nil => simp
   | cons a t ih => simp only [List.map_cons, List.sum_cons, ih]; ring
 
+theorem list_sum_lin2 {α : Type} (l : List α) (c m e : α → R) (k T : R) :
+    (l.map (fun x => c x * (k * e x - m x * T))).sum = k * (l.map (fun x => c x * e x)).sum - T * (l.map (fun x => m x * c x)).sum := by
+  induction l with
+  | nil => simp
+  | cons a t ih => simp only [List.map_cons, List.sum_cons, ih]; ring
+
 theorem list_sum_scale {α : Type} (l : List α) (c e : α → R) (k : R) :
     (l.map (fun x => c x * (k * e x))).sum = k * (l.map (fun x => c x * e x)).sum := by
   induction l with
   | nil => simp
   | cons a t ih => simp only [List.map_cons, List.sum_cons, ih]; ring
 
+theorem wfC_gwf (p : Par) (out : List Col) (hout : WfC p out) : C02L.GWF p.N (Ks.mkCt p.b p.N out) ∧ (Ks.mkCt p.b p.N out).size = p.rs := by
+  have hol : out.length = p.rank + 1 := (wf_of_shapeOk p.N _ _ _ hout.1).1
+  exact gwf_mk p.b p.rs out (by intro h; rw [h] at hol; simp at hol) (wf_of_shapeOk p.N _ _ _ hout.1).2
+
+theorem tailL_bound (p : Par) (out : List Col) (hout : WfC p out) :
+    (tailL p out).length = p.N ∧ normInf (tailL p out) ≤ KsDec.truncBound p.b (min p.rs p.dnum) (min p.rs p.dnum) p.sk p.rank p.rs p.Hin := by
+  obtain ⟨hg, hs⟩ := wfC_gwf p out hout
+  have hol : out.length = p.rank + 1 := (wf_of_shapeOk p.N _ _ _ hout.1).1
+  refine ⟨KsDec.truncL_length _ _ _ _ _ _ _, ?_⟩
+  have := KsDec.normInf_truncL_le p.N p.b (min p.rs p.dnum) (min p.rs p.dnum) p.sk p.rank (Ks.mkCt p.b p.N out) p.Hin (Hin_nonneg p) hg
+    (by show p.rank ≤ out.length - 1; rw [hol]; omega) hout.2
+  rw [hs] at this
+  exact this
+
+theorem ι_bitErr (p : Par) (L : Nat) (hok : BrOk p L) (out : List Col) (hout : WfC p out) (x : GBit p.N) (hx : Good p x) :
+    Ks.ι p.N (bitErr p out x) = (2 : Ks.R p.N) ^ (p.b * p.rs) * Ks.ι p.N (bitErrL p out x)
+      - bitR x.bit * ((2 : Ks.R p.N) ^ (p.b * p.S) * Ks.ι p.N (tailL p out)) := by
+  have hElen := Ks.errL_length p.N p.b (mkBuf p.N (p.rank + 1) p.dnum (outT p out)) x.g.toKey x.EL hx.2.2.2.2.2.2.2.2.1
+  unfold bitErr
+  rw [Ks.ι_add p.N _ _ (by simp [Hal.polyScale, bitErrL, hElen, (tailL_bound p out hout).1]), Ks.ι_polyScale, Ks.ι_polyScale]
+  cases x.bit <;> simp [bitR] <;> push_cast <;> ring
+
 theorem bitErr_bound (p : Par) (L : Nat) (hok : BrOk p L) (out : List Col) (hout : WfC p out) (x : GBit p.N) (hx : Good p x) :
-    (Hal.polyScale (2 ^ (p.b * p.rs)) (bitErrL p out x)).length = p.N ∧
-    normInf (Hal.polyScale (2 ^ (p.b * p.rs)) (bitErrL p out x)) ≤ brB p := by
+    (bitErr p out x).length = p.N ∧ normInf (bitErr p out x) ≤ brB p := by
   obtain ⟨hN, hb1, hb60, hrs1, hrsd, hdS, hd1, hsk, hDm, hBE, _⟩ := hok
   obtain ⟨hgn, hgw, hgb, hgr, hgdn, hgds, hgS, hgd, hEL, hBEL, hM, hkey⟩ := hx
   have hsh := outT_shape p out hout
@@ -330,15 +421,26 @@ theorem bitErr_bound (p : Par) (L : Nat) (hok : BrOk p L) (out : List Col) (hout
         exact outT_bound p (Hin_nonneg p) out hout col (List.mem_of_getElem? hc) q hq' y hy
   have hnormE := Ks.normInf_errL_le_of_bounds p.N p.b (mkBuf p.N (p.rank + 1) p.dnum (outT p out)) x.g.toKey x.EL p.Hin p.BE hAlen hAB hBEL
   have hElen := Ks.errL_length p.N p.b (mkBuf p.N (p.rank + 1) p.dnum (outT p out)) x.g.toKey x.EL hEL
-  refine ⟨by simp [Hal.polyScale, bitErrL, hElen], ?_⟩
-  rw [normInf_polyScale, abs_pow, abs_two]
+  obtain ⟨hTl, hTb⟩ := tailL_bound p out hout
+  refine ⟨by simp [bitErr, Hal.polyAdd, Hal.polyScale, bitErrL, hElen, hTl], ?_⟩
+  unfold bitErr
+  refine le_trans (normInf_polyAdd_le _ _) ?_
+  rw [normInf_polyScale, normInf_polyScale, abs_pow, abs_two, abs_neg]
   unfold brB bitErrL
-  apply mul_le_mul_of_nonneg_left _ (by positivity)
   have hcols : (x.g.toKey.mat.colsIn : Int) = ((p.rank + 1 : Nat) : Int) := by show ((x.g.rank + 1 : Nat) : Int) = _; rw [hgr]
   have hrows : (x.g.toKey.mat.rows : Int) = (p.dnum : Int) := by show (x.g.dnum : Int) = _; rw [hgdn]
   have hds : x.g.toKey.dsize = p.dsize := hgds
   rw [hcols, hrows, hds] at hnormE
-  exact hnormE
+  have h1 := mul_le_mul_of_nonneg_left hnormE (by positivity : (0 : Int) ≤ 2 ^ (p.b * p.rs))
+  have hT0 : 0 ≤ normInf (tailL p out) := normInf_nonneg _
+  have habs : |(if x.bit = true then (2 : Int) ^ (p.b * p.S) else 0)| ≤ 2 ^ (p.b * p.S) := by
+    split
+    · rw [abs_pow, abs_two]
+    · simp
+  have h2 : |(if x.bit = true then (2 : Int) ^ (p.b * p.S) else 0)| * normInf (tailL p out)
+      ≤ 2 ^ (p.b * p.S) * KsDec.truncBound p.b (min p.rs p.dnum) (min p.rs p.dnum) p.sk p.rank p.rs p.Hin :=
+    le_trans (mul_le_mul_of_nonneg_right habs hT0) (mul_le_mul_of_nonneg_left hTb (by positivity))
+  linarith
 
 theorem shapeOk_of_wf (N cols size : Nat) (x : List Col) (hl : x.length = cols) (hw : ∀ c ∈ x, C02L.ColWF N size c) :
     shapeOk N cols size x = true := by
@@ -348,14 +450,13 @@ theorem shapeOk_of_wf (N cols size : Nat) (x : List Col) (hl : x.length = cols) 
 
 /-- **one executed block of `execute_block_binary`**: it returns, the result is again a ciphertext of the loop (shape, digits `≤ 2^b − 1`), and
 `phase(acc') = (1 + Σ_j s_j·(X^{a_j} − 1))·phase(acc) + Σ_j (X^{a_j} − 1)·ι(e_j) + ι(E) + 2^(b·rs+b·S)·Y` in `ℤ[X]/(X^N+1)` with
-`e_j = 2^(b·rs)·errL_j` (`‖e_j‖_∞ ≤ brB`, `bitErr_bound`) and `‖E‖_∞ ≤ brU` -/
+`e_j = 2^(b·rs)·errL_j − s_j·2^(b·S)·tailL` (`bitErr`, `‖e_j‖_∞ ≤ brB`: `bitErr_bound`) and `‖E‖_∞ ≤ brU` -/
 theorem bbBlock_spec (p : Par) (L : Nat) (hok : BrOk p L) (out : List Col) (hout : WfC p out)
     (blk : List (Int × GBit p.N)) (hL : blk.length ≤ L) (hgood : ∀ x ∈ blk, Good p x.2) :
     ∃ res, bbBlock p.big128 p.N p.b p.rs p.S (p.rank + 1) p.dnum out (blkKeys blk) = some res ∧ WfC p res ∧
       ∃ (E : Poly) (Y : Ks.R p.N), E.length = p.N ∧ normInf E ≤ brU p ∧
         phR p res = (1 + (blk.map (fun x => bitR x.2.bit * (rt p.N ^ Lut.posMod x.1 (2 * p.N) - 1))).sum) * phR p out
-          + (blk.map (fun x => (rt p.N ^ Lut.posMod x.1 (2 * p.N) - 1)
-              * Ks.ι p.N (Hal.polyScale (2 ^ (p.b * p.rs)) (bitErrL p out x.2)))).sum
+          + (blk.map (fun x => (rt p.N ^ Lut.posMod x.1 (2 * p.N) - 1) * Ks.ι p.N (bitErr p out x.2))).sum
           + Ks.ι p.N E + ((p.modulus : ℤ) : Ks.R p.N) * Y := by
   have hok' := hok
   obtain ⟨hN, hb1, hb60, hrs1, hrsd, hdS, hd1, hsk, hDm, hBE, hhead⟩ := hok
@@ -455,7 +556,8 @@ theorem bbBlock_spec (p : Par) (L : Nat) (hok : BrOk p L) (out : List Col) (hout
   rw [hbv, hP, bigVal_addCols p hN hsk _ htk htlen htwf] at he
   have hmap : ((blkTerms p out blk).map (fun t => (rt p.N ^ t.1 - 1) * bigVal p t.2))
       = blk.map (fun x => (rt p.N ^ Lut.posMod x.1 (2 * p.N) - 1) *
-          (bitR x.2.bit * (((2 : Ks.R p.N) ^ p.b) ^ (p.S - p.rs) * Ks.ι p.N (C02L.valP p.b p.N (Core.Ops.phase p.sk (Ks.mkCt p.b p.N out))))
+          (bitR x.2.bit * (((2 : Ks.R p.N) ^ p.b) ^ (p.S - p.rs)
+              * (Ks.ι p.N (C02L.valP p.b p.N (Core.Ops.phase p.sk (Ks.mkCt p.b p.N out))) - Ks.ι p.N (tailL p out)))
             + Ks.ι p.N (bitErrL p out x.2) - ((2 : Ks.R p.N) ^ p.b) ^ p.S * bitHead p out x.2)) := by
     unfold blkTerms
     rw [List.map_map]
@@ -465,23 +567,24 @@ theorem bbBlock_spec (p : Par) (L : Nat) (hok : BrOk p L) (out : List Col) (hout
     rw [bigVal_vmp p L hok' out hout x.2 (hgood x hx)]
   rw [hmap, list_sum_lin] at he
   have hol : out.length = p.rank + 1 := (wf_of_shapeOk p.N _ _ _ hout.1).1
-  have hfit := ι_valP_phase_fit p.N hN p.b p.rs p.S p.sk out
-    (by intro h; rw [h] at hol; simp at hol) (wf_of_shapeOk p.N _ _ _ hout.1).2 (le_trans hrsd hdS)
+  have hfit := Core.ι_valP_phase_fit p.N hN p.b p.rs p.S p.sk out
+    (by intro h; rw [h] at hol; simp at hol) (wf_of_shapeOk p.N _ _ _ hout.1).2 hrsd
   rw [hol] at hfit
   rw [hfit] at he
-  have hsc : (blk.map (fun x => (rt p.N ^ Lut.posMod x.1 (2 * p.N) - 1) * Ks.ι p.N (Hal.polyScale (2 ^ (p.b * p.rs)) (bitErrL p out x.2)))).sum
-      = (2 : Ks.R p.N) ^ (p.b * p.rs) * (blk.map (fun x => (rt p.N ^ Lut.posMod x.1 (2 * p.N) - 1) * Ks.ι p.N (bitErrL p out x.2))).sum := by
-    rw [← list_sum_scale]
+  have hsc : (blk.map (fun x => (rt p.N ^ Lut.posMod x.1 (2 * p.N) - 1) * Ks.ι p.N (bitErr p out x.2))).sum
+      = (2 : Ks.R p.N) ^ (p.b * p.rs) * (blk.map (fun x => (rt p.N ^ Lut.posMod x.1 (2 * p.N) - 1) * Ks.ι p.N (bitErrL p out x.2))).sum
+        - ((2 : Ks.R p.N) ^ (p.b * p.S) * Ks.ι p.N (tailL p out))
+          * (blk.map (fun x => bitR x.2.bit * (rt p.N ^ Lut.posMod x.1 (2 * p.N) - 1))).sum := by
+    rw [← list_sum_lin2]
     congr 1
     apply List.map_congr_left
-    intro x _
-    rw [Ks.ι_polyScale]; push_cast; rfl
+    intro x hx
+    rw [ι_bitErr p L hok' out hout x.2 (hgood x hx)]
   rw [hsc]
   unfold phR Par.modulus
   have hpw : ((2 : Ks.R p.N) ^ p.b) ^ (p.S - p.rs) * (2 : Ks.R p.N) ^ (p.b * p.rs) = (2 : Ks.R p.N) ^ (p.b * p.S) := by
     rw [← pow_mul, ← pow_add]; congr 1
-    have : p.rs ≤ p.S := le_trans hrsd hdS
-    rw [← Nat.mul_add, Nat.sub_add_cancel this]
+    rw [← Nat.mul_add, Nat.sub_add_cancel hrsd]
   have hpS : ((2 : Ks.R p.N) ^ p.b) ^ p.S = (2 : Ks.R p.N) ^ (p.b * p.S) := by rw [← pow_mul]
   have hpM : (((2 ^ (p.b * p.rs + p.b * p.S) : ℕ) : ℤ) : Ks.R p.N) = (2 : Ks.R p.N) ^ (p.b * p.rs) * (2 : Ks.R p.N) ^ (p.b * p.S) := by
     push_cast; rw [pow_add]
@@ -491,8 +594,9 @@ theorem bbBlock_spec (p : Par) (L : Nat) (hok : BrOk p L) (out : List Col) (hout
   have hpA : (2 : Ks.R p.N) ^ (p.b * p.rs + p.b * p.S) = (2 : Ks.R p.N) ^ (p.b * p.rs) * (2 : Ks.R p.N) ^ (p.b * p.S) := pow_add _ _ _
   rw [hpA] at he
   linear_combination he
-    + (1 + (blk.map (fun x => bitR x.2.bit * (rt p.N ^ Lut.posMod x.1 (2 * p.N) - 1))).sum)
-      * Ks.ι p.N (C02L.valP p.b p.N (Core.Ops.phase p.sk (Ks.mkCt p.b p.N out))) * hpw
+    + ((1 + (blk.map (fun x => bitR x.2.bit * (rt p.N ^ Lut.posMod x.1 (2 * p.N) - 1))).sum)
+        * Ks.ι p.N (C02L.valP p.b p.N (Core.Ops.phase p.sk (Ks.mkCt p.b p.N out)))
+      - (blk.map (fun x => bitR x.2.bit * (rt p.N ^ Lut.posMod x.1 (2 * p.N) - 1))).sum * Ks.ι p.N (tailL p out)) * hpw
 
 /-! ### the block machine on the executed loop -/
 
@@ -526,27 +630,27 @@ theorem stepC_spec (p : Par) (L : Nat) (hok : BrOk p L) (hN2 : 2 * p.N < 2 ^ 62)
   have e1 : (blk.map (fun x => bitR x.2.bit * (rt p.N ^ Lut.posMod x.1 (2 * p.N) - 1)))
       = blk.map (fun x => (bitR x.2.bit : Ks.R p.N) * ((RingNu.mono p.modulus p.N hN).X x.1 - 1)) := by
     apply List.map_congr_left; intro x hx; rw [hX x hx]
-  have e2 : (blk.map (fun x => (rt p.N ^ Lut.posMod x.1 (2 * p.N) - 1) * Ks.ι p.N (Hal.polyScale (2 ^ (p.b * p.rs)) (bitErrL p c x.2))))
-      = blk.map (fun x => ((RingNu.mono p.modulus p.N hN).X x.1 - 1) * Ks.ι p.N (Hal.polyScale (2 ^ (p.b * p.rs)) (bitErrL p c x.2))) := by
+  have e2 : (blk.map (fun x => (rt p.N ^ Lut.posMod x.1 (2 * p.N) - 1) * Ks.ι p.N (bitErr p c x.2)))
+      = blk.map (fun x => ((RingNu.mono p.modulus p.N hN).X x.1 - 1) * Ks.ι p.N (bitErr p c x.2)) := by
     apply List.map_congr_left; intro x hx; rw [hX x hx]
   rw [e1, e2] at hid
   have hdiff : phR p res - (1 + (blk.map fun x => (bitR x.2.bit : Ks.R p.N) * ((RingNu.mono p.modulus p.N hN).X x.1 - 1)).sum) * phR p c
-      = (blk.map (fun x => ((RingNu.mono p.modulus p.N hN).X x.1 - 1) * Ks.ι p.N (Hal.polyScale (2 ^ (p.b * p.rs)) (bitErrL p c x.2)))).sum
+      = (blk.map (fun x => ((RingNu.mono p.modulus p.N hN).X x.1 - 1) * Ks.ι p.N (bitErr p c x.2))).sum
         + (Ks.ι p.N E + ((p.modulus : ℤ) : Ks.R p.N) * Y) := by rw [hid]; ring
   rw [hdiff]
   have hS := (RingNu.size p.modulus p.N hN).add_le
-    ((blk.map (fun x => ((RingNu.mono p.modulus p.N hN).X x.1 - 1) * Ks.ι p.N (Hal.polyScale (2 ^ (p.b * p.rs)) (bitErrL p c x.2)))).sum)
+    ((blk.map (fun x => ((RingNu.mono p.modulus p.N hN).X x.1 - 1) * Ks.ι p.N (bitErr p c x.2))).sum)
     (Ks.ι p.N E + ((p.modulus : ℤ) : Ks.R p.N) * Y)
   have hU : (RingNu.size p.modulus p.N hN).ν (Ks.ι p.N E + ((p.modulus : ℤ) : Ks.R p.N) * Y) ≤ brU p :=
     le_trans (RingNu.nu_le_of_repr hN _ Y E hE rfl) hnE
   have hA := (RingNu.size p.modulus p.N hN).sum_le
-    (blk.map (fun x => ((RingNu.mono p.modulus p.N hN).X x.1 - 1) * Ks.ι p.N (Hal.polyScale (2 ^ (p.b * p.rs)) (bitErrL p c x.2))))
+    (blk.map (fun x => ((RingNu.mono p.modulus p.N hN).X x.1 - 1) * Ks.ι p.N (bitErr p c x.2)))
     (2 * brB p) (by
       intro y hy
       obtain ⟨x, hx, rfl⟩ := List.mem_map.mp hy
       have hb := bitErr_bound p L hok c hc x.2 (hgood x hx).1
-      have h1 := (RingNu.mono p.modulus p.N hN).xm1_le x.1 (Ks.ι p.N (Hal.polyScale (2 ^ (p.b * p.rs)) (bitErrL p c x.2)))
-      have h2 : (RingNu.size p.modulus p.N hN).ν (Ks.ι p.N (Hal.polyScale (2 ^ (p.b * p.rs)) (bitErrL p c x.2))) ≤ brB p :=
+      have h1 := (RingNu.mono p.modulus p.N hN).xm1_le x.1 (Ks.ι p.N (bitErr p c x.2))
+      have h2 : (RingNu.size p.modulus p.N hN).ν (Ks.ι p.N (bitErr p c x.2)) ≤ brB p :=
         le_trans (RingNu.nu_le_of_repr hN _ 0 _ hb.1 (by simp)) hb.2
       linarith)
   rw [List.length_map] at hA
